@@ -138,6 +138,15 @@ inline Verdict guarded(const std::function<Verdict()> &eval) {
         v = Verdict();
         v.aborted = true;
         v.msg = "library assertion: " + f.what();
+        // signature = file name + asserted expression (line numbers shift with unrelated edits)
+        std::string w = f.what(), expr, file;
+        size_t a = w.find("expression: "), b = w.find("\n", a == std::string::npos ? 0 : a);
+        if (a != std::string::npos) expr = w.substr(a + 12, b - a - 12);
+        size_t c = w.find(" of ", b == std::string::npos ? 0 : b), d = w.find("\n", c == std::string::npos ? 0 : c);
+        if (c != std::string::npos) file = w.substr(c + 4, d - c - 4);
+        size_t sl = file.rfind('/');
+        if (sl != std::string::npos) file = file.substr(sl + 1);
+        v.sig = "assert:" + file + ":" + expr;
     } catch (std::exception &e) {
         v = Verdict();
         v.fail(std::string("uncaught std::exception: ") + e.what(), "uncaught-exception");
@@ -161,14 +170,17 @@ inline bool record(const std::string &prop, const std::string &body, const std::
     if (s.failed_once && ++s.shrink_evals > 3000) return true;   // bound the shrink phase
     if (!s.dir.empty()) write_file(s.dir + "/current.case", text);
     Verdict v = guarded(eval);
-    if (v.aborted && abort_is_failure) { v.ok = false; v.sig = "library-assert"; }
-    if (v.aborted && !abort_is_failure && !s.failed_once) {
+    // A library assertion on a generated (valid) input means the call did not deliver a result at all: it fails this
+    // property too, unless the assertion site is a known finding (those are owned by C15 and only counted here).
+    (void)abort_is_failure;
+    if (v.aborted && !s.known_sigs.count(v.sig)) v.ok = false;
+    if (v.aborted && v.ok && !s.failed_once) {
         // not judged here (DESIGN 2.6); kept for C15, which owns library assertions
         std::string m = v.msg; for (char &ch : m) if (ch == '\n') ch = ' ';
         fprintf(stderr, "ABORTED: %s\n", m.c_str());
         if (s.aborted < 5 && !s.dir.empty()) write_file(s.dir + "/aborted-" + std::to_string(s.aborted) + ".case", text);
     }
-    bool known = !v.ok && !v.sig.empty() && s.known_sigs.count(v.sig);
+    bool known = !v.ok && !v.aborted && !v.sig.empty() && s.known_sigs.count(v.sig);
     if (!s.failed_once) {
         s.evaluations++;
         if (v.aborted) s.aborted++;
@@ -244,7 +256,7 @@ inline int run_main(int argc, char **argv, std::vector<Prop> props) {
         for (auto &p : props) {
             if (p.name != name) continue;
             Verdict v = guarded([&] { return p.replay(r); });
-            if (v.aborted) { printf("ABORTED by %s\n", v.msg.c_str()); printf("SIGNATURE: library-assert\n"); return 4; }
+            if (v.aborted) { printf("ABORTED by %s\n", v.msg.c_str()); printf("SIGNATURE: %s\n", v.sig.c_str()); return 4; }
             if (v.ok) { printf("replay of %s: property holds%s\n", name.c_str(), v.inconclusive ? " (oracle inconclusive)" : ""); return 0; }
             printf("replay of %s: FAIL %s\n", name.c_str(), v.msg.c_str());
             if (!v.sig.empty()) printf("SIGNATURE: %s\n", v.sig.c_str());
